@@ -302,7 +302,8 @@ def run_shard(shard, rec):
         def collect(spec):
             specs.append(spec)
             return None
-        hyp.search(rec, wbspec.specs(max_formulas=8), collect, shard['n'],
+        hyp.search(rec, wbspec.specs(max_formulas=8, with_computed=True),
+                   collect, shard['n'],
                    shard['seed'], max_rounds=1, shrink=False)
         # (sorted by size: every workbook follows a smaller one in one order
         # and a larger one in the other)
@@ -378,6 +379,9 @@ def replay(case, rec):
         return
     if isinstance(case, dict) and case.get('kind') == 'degenerate':
         check_degenerate(rec)
+        return
+    if isinstance(case, dict) and 'sheets' in case and 'seq' not in case:
+        all_orders(rec, case)          # a spec found by the all-orders shard
         return
     if isinstance(case, list):
         spec, config, seq = case
